@@ -1,3 +1,4 @@
+// LDFLAGS: -Wl,--wrap=malloc
 // C18 harness: drives the REAL arena allocator, the arena-backed containers and asmjit::String and records,
 // per component, an ndjson trace (operation, arguments, result, full projected structure) for spec/adt/*Trace.tla.
 //
@@ -44,6 +45,21 @@
 #endif
 
 using namespace asmjit;
+
+// ---------------------------------------------------------------------------------------------------------
+// Failing heap requests: every malloc() of the statically linked asmjit objects (arena blocks, dynamic blocks,
+// String buffers) goes through __wrap_malloc (link option --wrap=malloc).  While armed, the next request fails once.
+// ---------------------------------------------------------------------------------------------------------
+extern "C" void* __real_malloc(size_t);
+static volatile bool g_fail_armed = false, g_fail_hit = false;
+extern "C" void* __wrap_malloc(size_t n) {
+  if (g_fail_armed) { g_fail_armed = false; g_fail_hit = true; return nullptr; }
+  return __real_malloc(n);
+}
+struct FailNext {          // arms for the duration of one call into asmjit
+  explicit FailNext(bool on) { g_fail_hit = false; g_fail_armed = on; }
+  ~FailNext() { g_fail_armed = false; }
+};
 
 enum Comp { C_ARENA, C_VECTOR, C_HASH, C_TREE, C_LIST, C_BITSET, C_BITVEC, C_POOL, C_STRING, NCOMP };
 static const char* comp_name[NCOMP] = {"arena", "vector", "hash", "tree", "list", "bitset", "bitvec", "pool", "string"};
@@ -214,6 +230,7 @@ struct World {
   Arena* arena = nullptr;
   uint8_t* static_buf = nullptr; size_t static_n = 0; size_t blk = 1024;
   bool after_soft = false;        // a soft reset happened and no hard reset since (random driver then also asks for more than retained blocks hold)
+  bool arm = false;               // the next container / string operation runs with a failing heap request
   bool dead = false;              // chain corrupted: stop the execution (the trace is rejected by the spec)
   std::vector<Region> regs; uint32_t next_reg = 1;
   // containers
@@ -324,30 +341,36 @@ struct World {
   size_t live_raw() { return regs.size(); }
 
 
-  void arena_alloc(const char* kind, size_t n) {
+  void arena_alloc(const char* kind, size_t n, bool fail = false) {
     ev_arena_begin();
-    W.key("op").beginArr().val(kind).val((long long)n).endArr();
+    W.key("op").beginArr().val(kind).val((long long)n).val(fail ? 1 : 0).endArr();
     Region g{next_reg++, nullptr, n, n, 'o', uint8_t(1 + r.below(250)), false};
     std::string k = kind;
     bool zero_ok = true;
     size_t asz = n;
-    if (k == "oneshot") g.p = arena->alloc_oneshot<uint8_t>(n);
-    else if (k == "zeroed") { g.p = arena->alloc_oneshot_zeroed<uint8_t>(n); g.zeroed = true; }
-    else if (k == "reusable") { g.p = arena->alloc_reusable<uint8_t>(n, Out(asz)); g.kind = 'r'; }
-    else if (k == "rzeroed") { g.p = arena->alloc_reusable_zeroed<uint8_t>(n, Out(asz)); g.kind = 'r'; g.zeroed = true; }
+    {
+      FailNext fn(fail);          // the next heap request made by the arena fails
+      if (k == "oneshot") g.p = arena->alloc_oneshot<uint8_t>(n);
+      else if (k == "zeroed") { g.p = arena->alloc_oneshot_zeroed<uint8_t>(n); g.zeroed = true; }
+      else if (k == "reusable") { g.p = arena->alloc_reusable<uint8_t>(n, Out(asz)); g.kind = 'r'; }
+      else if (k == "rzeroed") { g.p = arena->alloc_reusable_zeroed<uint8_t>(n, Out(asz)); g.kind = 'r'; g.zeroed = true; }
+    }
+    W.kv("hit", (bool)g_fail_hit);
+    if (!g.p) asz = n;
     g.size = asz;
     if (g.p && g.zeroed) for (size_t i = 0; i < g.size; i++) if (g.p[i]) { zero_ok = false; break; }
     W.key("r").beginArr().val(g.p ? "Ok" : "Null").val((long long)g.id).val((long long)asz).val(zero_ok).endArr();
     if (g.p) { memset(g.p, g.tag, g.req); regs.push_back(g); }
     ev_arena_end();
   }
-  void arena_dup(size_t n, bool nt) {
+  void arena_dup(size_t n, bool nt, bool fail = false) {
     ev_arena_begin();
-    W.key("op").beginArr().val("dup").val((long long)n).val(nt).endArr();
+    W.key("op").beginArr().val("dup").val((long long)n).val(nt).val(fail ? 1 : 0).endArr();
     uint8_t tag = uint8_t(1 + r.below(250));
     std::vector<uint8_t> src(n + 1, tag);
     Region g{next_reg++, nullptr, n, Support::align_up(n + size_t(nt), 8), 'd', tag, false};
-    g.p = (uint8_t*)arena->dup(src.data(), n, nt);
+    { FailNext fn(fail); g.p = (uint8_t*)arena->dup(src.data(), n, nt); }
+    W.kv("hit", (bool)g_fail_hit);
     memset(src.data(), 0xEE, src.size());
     bool same = true, term = true;
     if (g.p) { for (size_t i = 0; i < n; i++) same &= g.p[i] == tag; if (nt) term = g.p[n] == 0; }
@@ -400,6 +423,7 @@ struct World {
     W.beginObj().kv("e", "Op");
     W.key("op").beginArr().val(name).val(v + 1).val(a).val(b).endArr();
     W.key("r").beginArr();
+    g_fail_hit = false; g_fail_armed = arm;      // optionally: the next heap request fails
     bool two = false;
     if (name == "append") W.val(err_name(V.append(*arena, (uint32_t)a)));
     else if (name == "prepend") W.val(err_name(V.prepend(*arena, (uint32_t)a)));
@@ -436,6 +460,7 @@ struct World {
     else if (name == "riter") ints(V.iter(true));
     else if (name == "all") {}
     W.endArr();
+    g_fail_armed = false; W.kv("fail", arm).kv("hit", (bool)g_fail_hit); arm = false;
     if (name == "all") vec_state({0, 1, 2, 3});
     else if (two) vec_state({v, o});
     else vec_state({v});
@@ -537,7 +562,9 @@ struct World {
       HNode* n = arena->new_oneshot<HNode>(hcode((uint32_t)a), (uint32_t)a, id);
       hnodes.push_back(n);
       W.val((long long)id).endArr();
+      g_fail_hit = false; g_fail_armed = arm;
       HNode* rr = H.insert(*arena, n);
+      g_fail_armed = false; W.kv("fail", arm).kv("hit", (bool)g_fail_hit); arm = false;
       W.key("r").beginArr().val(rr == n).endArr();
     } else if (name == "rem") {      // a = node id
       W.endArr();
@@ -681,6 +708,7 @@ struct World {
     W.beginObj().kv("e", "Op");
     W.key("op").beginArr().val(name).val(b + 1).val(a).val(c).endArr();
     W.key("r").beginArr();
+    g_fail_hit = false; g_fail_armed = arm;      // optionally: the next heap request fails
     bool two = false;
     if (name == "resize") W.val(err_name(B.resize(*arena, (size_t)a, c != 0)));
     else if (name == "append") W.val(err_name(B.append(*arena, a != 0)));
@@ -704,6 +732,7 @@ struct World {
     else if (name == "release") B.release(*arena);
     else if (name == "iter") { ArenaBitSet::ForEachBitSet it(B); while (it.has_next()) W.val((long long)it.next()); }
     W.endArr();
+    g_fail_armed = false; W.kv("fail", arm).kv("hit", (bool)g_fail_hit); arm = false;
     if (two) bs_state({0, 1}); else bs_state({b});
     W.endObj(); emit(C_BITSET);
     if (B._data != d0 || O._data != d1) arena_ext("bitset");
@@ -750,6 +779,7 @@ struct World {
     W.beginObj().kv("e", "Op");
     W.key("op").beginArr().val(name).val(a).endArr();
     W.key("r").beginArr();
+    g_fail_hit = false; g_fail_armed = arm;      // optionally: the next heap request fails
     bool fresh = false;
     if (name == "alloc") {
       PObj* p = pool.alloc(*arena);
@@ -764,6 +794,7 @@ struct World {
       pool.release(p); plive[a - 1] = 0;
     }
     W.endArr();
+    g_fail_armed = false; W.kv("fail", arm).kv("hit", (bool)g_fail_hit); arm = false;
     W.key("st").beginObj().kv("count", pool.pooled_item_count());
     W.key("free").beginArr();
     { size_t g = 0; for (auto* l = pool._data; l && g < pobjs.size() + 3; l = l->next, g++) W.val(pslot(l)); }
@@ -822,6 +853,8 @@ static void str_exec(World& w, const StrOp& o0) {
   W.endArr();
   W.key("r").beginArr();
   std::string text(o.bytes.begin(), o.bytes.end());
+  (void)text.c_str();
+  g_fail_hit = false; g_fail_armed = w.arm;
   bool two = false;
   const String::ModifyOp mop = o.assign ? String::ModifyOp::kAssign : String::ModifyOp::kAppend;
   if (o.name == "assign") W.val(err_name(S.assign(text.data(), text.size())));              // assign(const char*, size)
@@ -871,6 +904,7 @@ static void str_exec(World& w, const StrOp& o0) {
     W.val(d[sz] == 0).val(emb);
   }
   W.endArr();
+  g_fail_armed = false; W.kv("fail", w.arm).kv("hit", (bool)g_fail_hit); w.arm = false;
   if (two) w.str_state({0, 1}); else w.str_state({o.s});
   W.endObj(); emit(C_STRING);
 }
@@ -965,6 +999,7 @@ static void random_step(World& w, vj::Rng& r, const unsigned* weight) {
   unsigned x = (unsigned)r.below(total);
   int c = 0;
   while (x >= weight[c]) { x -= weight[c]; c++; }
+  w.arm = (c == C_VECTOR || c == C_HASH || c == C_BITSET || c == C_POOL || c == C_STRING) && r.chance(1, c == C_VECTOR || c == C_HASH ? 4 : 10);
   switch (c) {
     case C_ARENA: {
       unsigned k = (unsigned)r.below(100);
@@ -972,17 +1007,17 @@ static void random_step(World& w, vj::Rng& r, const unsigned* weight) {
       if (k < 30) {
         size_t n = 8 * (1 + r.below(r.chance(1, 5) ? small_max / 8 : 24));
         if (r.chance(1, w.after_soft ? 3 : 25)) n = 8 * (100 + r.below(3500));     // bigger than a (retained) block
-        if (w.live_raw() < 18) w.arena_alloc(r.chance(1, 4) ? "zeroed" : "oneshot", n);
+        if (w.live_raw() < 18) w.arena_alloc(r.chance(1, 4) ? "zeroed" : "oneshot", n, r.chance(1, 8));
       } else if (k < 60) {
         static const std::vector<size_t> e = {1, 15, 16, 17, 32, 33, 64, 65, 128, 129, 256, 257, 512, 513, 1024, 1025, 2047, 2048, 2049, 4000};
         size_t n = std::max<size_t>(1, pick_size(r, e, 5000));
-        if (w.live_raw() < 18) w.arena_alloc(r.chance(1, 4) ? "rzeroed" : "reusable", n);
+        if (w.live_raw() < 18) w.arena_alloc(r.chance(1, 4) ? "rzeroed" : "reusable", n, r.chance(1, 6));
       } else if (k < 85) {
         std::vector<size_t> cand;
         for (size_t i = 0; i < w.regs.size(); i++) if (w.regs[i].kind == 'r') cand.push_back(i);
         if (!cand.empty()) w.arena_free(cand[r.below(cand.size())]);
       } else if (k < 93) {
-        if (w.live_raw() < 18) w.arena_dup(1 + r.below(700), r.chance(1, 2));
+        if (w.live_raw() < 18) w.arena_dup(1 + r.below(700), r.chance(1, 2), r.chance(1, 8));
       } else if (k < 97) w.arena_reset(false);
       else w.arena_reset(true);
       break;
@@ -1181,10 +1216,17 @@ static void run_script(const vj::Value& s, vj::Rng& r) {
         for (long long i = 0; i < rep && !w.dead; i++) w.arena_alloc(name.c_str(), (size_t)A(3));
         continue;
       }
+      if (name == "leftover") {   // ["leftover", L] : fill the current block so that exactly L bytes remain (L multiple of 8)
+        size_t rem = w.arena->remaining_size(), L = (size_t)A(1);
+        if (rem < L + 8) { w.arena_alloc("oneshot", 64); rem = w.arena->remaining_size(); }      // opens a block if there is none
+        rem &= ~size_t(7);
+        while (rem > L && !w.dead) { size_t take = std::min<size_t>(rem - L, 1024); w.arena_alloc("oneshot", take); rem -= take; if (w.regs.size() > 30) break; }
+        continue;
+      }
       if (name == "reset") w.arena_reset(op[1].s() == "hard");
       else if (name == "free") { for (size_t i = 0; i < w.regs.size(); i++) if ((long long)w.regs[i].id == A(1)) { w.arena_free(i); break; } }
-      else if (name == "dup") w.arena_dup((size_t)A(1), A(2) != 0);
-      else w.arena_alloc(name.c_str(), (size_t)A(1));
+      else if (name == "dup") w.arena_dup((size_t)A(1), A(2) != 0, A(3) != 0);
+      else w.arena_alloc(name.c_str(), (size_t)A(1), A(2) != 0);
     }
     else if (c == "vector") w.vec_op(name, (int)A(1) - 1, A(2), A(3));
     else if (c == "hash" && name == "grow") w.hash_grow((int)A(1) - 1, (uint32_t)A(2));
